@@ -8,7 +8,9 @@
    (create, write - with a torn middle state -, Sync, Close) and then renames it over the target:
    the target itself goes from its previous content to the complete new text in one step. (Until
    the fix of finding F8-iii, Save truncated the target in place and then wrote it: that variant
-   is kept, selected by [sh_save_in_place], for the regression examples.)
+   is kept, selected by [sh_save_in_place], for the regression examples. In the code it survives as
+   saveInPlace, reachable only for a target that exists and is not a regular file - a symlink, a
+   device, a pipe given to the CLI's --out - which the files of the node folder never are.)
    [crash cp run] = the durable state when the process dies at crash point cp;
    [recover] = what the loaders read at restart (key.fileStore.LoadGroup/LoadShare,
    dkg.BoltStore.GetFinished/GetCurrent, boltdb cursor scan / Last, and the decision procedure of
